@@ -130,6 +130,11 @@ def vCloseFreq : Freq → Freq → Bool
   | .nan, .nan => true
   | _, _ => false
 
+/-- the property says "mirrored to one side of 0.5" without naming the side: when the side is left
+    to the data, the value and its mirror image 1 − value are both accepted -/
+def vCloseSide (sideFree : Bool) (i e : Option Rat) : Bool :=
+  vCloseOpt i e || (sideFree && vCloseOpt i (e.map (fun x => 1 - x)))
+
 /-! ### the property's clauses evaluated on the implementation's output -/
 
 /-- the impl answer is `{"error": kind}` or a table -/
@@ -256,7 +261,7 @@ def vHetSpec (v : VcfIn) (o : HetOpts) (impl : Json) : R (List String) := do
       else if refuse then
         -- (an empty table has lost its n_* columns, TumorBoost then reports a missing normal)
         pure (if mayRefuse || (o.tumorBoost && (vExpectedRows v pair o.minDepth false true).1.isEmpty) then []
-              else ["sample_choice_rules"])
+              else ["refuses_readable_file"])
       else
       let t ← vGetTable impl
       let (_, kept) := vExpectedRows v pair o.minDepth false true
@@ -325,7 +330,7 @@ def vBafSpec (tb : VTable) (segs : List (String × Int × Int)) (above : Option 
   vDedup (
     (if z.all (fun (g, i, _) => i.isNone == (((inside g).map (bafFreq tb.paired boost)).filterMap id).isEmpty) then []
      else ["baf_missing_iff_no_het"]) ++
-    (if z.all (fun (g, i, e) => !judged g || i.isNone || e.isNone || vCloseOpt i e) then []
+    (if z.all (fun (g, i, e) => !judged g || i.isNone || e.isNone || vCloseSide above.isNone i e) then []
      else ["baf_is_median_of_mirrored"]))
 
 def vBafSlack (tb : VTable) (segs : List (String × Int × Int)) (above : Option Bool) (boost : Bool) : Rat :=
@@ -447,15 +452,17 @@ def handleVcf (op : String) (inp : Json) (impl : Option Json) : R (Option Json) 
       let spec ← (match impl with
         | none => pure Json.null
         | some ij =>
-          if (vImplErr ij).isSome then pure (vClausesJ ["sample_choice_rules"]) else do
+          if (vImplErr ij).isSome then pure (vClausesJ ["refuses_readable_file"]) else do
           let im ← getList getOptRat ij
           -- the het table of the property: exactly the germline-heterozygous rows
           let spectb : VTable := { tb with rows := tb.rows.filter isHet }
-          let exp := resc (segs.map (specBaf tb.paired false none spectb.rows))
+          let expRaw := segs.map (specBaf tb.paired false none spectb.rows)
+          let exp := resc expRaw
           if im.length != segs.length then pure (vClausesJ ["one_value_per_range"]) else
           pure (vClausesJ (vDedup (
             (if (im.zip exp).all (fun p => p.1.isNone == p.2.isNone) then [] else ["baf_missing_iff_no_het"]) ++
-            (if (im.zip exp).all (fun p => p.1.isNone || p.2.isNone || vCloseOpt p.1 p.2) then []
+            (if (im.zip expRaw).all (fun p => p.1.isNone || p.2.isNone ||
+                  vCloseOpt p.1 (resc [p.2]).head! || vCloseOpt p.1 (resc [p.2.map (fun x => 1 - x)]).head!) then []
              else ["baf_is_median_of_mirrored"])))))
       pure (some (obj [("out", vOptRatsJ out), ("spec", spec),
                        ("nohet", boolJ (!tb.rows.isEmpty && !tb.rows.any isHet)),
